@@ -102,6 +102,30 @@ def run(ctx):
                 if type(rr).__name__ != out["cls"] or not okv:
                     ctx.fail("t3-validation:" + site, f"symbolic outcome {out['cls']}{want} vs concrete {type(rr).__name__}{got}", {"record": idx, "point": p})
                     break
+            # independent oracle (not derived from the symbolic record): stored coordinates of the source that the result
+            # keeps under the same name are bit-identical; a coordinate group the source lacks holds the keyword value or 0
+            rf = fields_of(res[0])
+            for o, p, rr in zip(objs, pts, res):
+                bad = None
+                for f in rf:
+                    if f in names and getattr(rr, f) != p[f]:
+                        bad = f"stored {f}={p[f]} became {getattr(rr, f)}"
+                group = {"z": "lg", "theta": "lg", "eta": "lg", "t": "tm", "tau": "tm"}
+                have = {group[nm] for nm in names if nm in group}
+                for f in rf:
+                    g_ = group.get(f)
+                    if g_ and g_ not in have:
+                        given = [k for k in kw if group.get(GEN.get(k, k)) == g_]
+                        want = KWVAL[given[0]] if len(given) == 1 else 0.0
+                        if len(given) == 1 and GEN.get(given[0], given[0]) != f and not meth.startswith("to_V") and not meth[3:4].isdigit():
+                            continue
+                        if len(given) == 1 and GEN.get(given[0], given[0]) != f:
+                            bad = f"keyword {given[0]} given but the result stores {f}"
+                        elif getattr(rr, f) != want:
+                            bad = f"missing coordinate {f}: expected {want} (keywords {sorted(kw)}), got {getattr(rr, f)}"
+                if bad:
+                    ctx.fail("object:" + site, bad, {"record": idx, "point": p, "kw": kw})
+                    break
             # array backends (sampled in quick)
             if not deep and (idx + ctx.seed) % 3 != 0:
                 continue
